@@ -1606,7 +1606,9 @@ def r9(ctx: RuleCtx) -> None:
     mod = ctx.repo.module(OPT)
     n = 0
     for qn, fn in mod.funcs().items():
-        if '#' in qn or not any(is_call(c, 'pop') and norm(c.func.value) == 'self.pending_options' for c in walk_no_nested(fn)):  # type: ignore[attr-defined]
+        # only functions that keep the popped value (an assignment whose value is the pop); a bare `pop(k, None)` drops it on purpose
+        if '#' in qn or not any(isinstance(st, (ast.Assign, ast.AnnAssign, ast.NamedExpr)) and st.value is not None and is_call(st.value, 'pop')
+                                and isinstance(st.value.func, ast.Attribute) and norm(st.value.func.value) == 'self.pending_options' for st in walk_no_nested(fn)):
             continue
         rows = S.Sym(fn).rows()
         # the popped value (with its sentinel default) and what is done with it
